@@ -347,6 +347,37 @@ def c04(ctx):
     reg = lib.vh_registry()
     codes = [x["code"] for x in reg["rules"]]
     ordinary = [c for c in codes if c not in ACC]
+    # the public selection function (include list) must hand the linter exactly the named rules: codes that are substrings of each
+    # other are where a sloppy comparison shows; the codes of the output must be a subset of the request
+    related = sorted({c for c in codes for o in codes if o != c and (c in o or o in c)})
+    by_rule = collections.defaultdict(list)
+    for sn in get_corpus():
+        by_rule[sn["rule_file"].replace("_", "-")].append(sn["src"])
+    sel_cases, sel_meta = [], []
+    for c in related:
+        family = [o for o in related if o != c and (c in o or o in c)]
+        srcs = []
+        for o in [c] + family:
+            srcs += by_rule.get(o, [])[:6]
+        for src in srcs[:24]:
+            for request in ([c], [c, "no-debugger"]):
+                sel_cases.append({"src": src, "media": "tsx", "rules": {"include": request, "tags": []}})
+                sel_cases.append({"src": src, "media": "tsx", "rules": request})
+                sel_meta.append((c, request))
+    sel_res = lib.run_vh("lint", sel_cases, per_case_timeout=5)
+    n_sel_bad = 0
+    for i, (c, request) in enumerate(sel_meta):
+        a, b = sel_res[2 * i], sel_res[2 * i + 1]
+        if status(a) != "ok" or status(b) != "ok":
+            continue
+        extra = sorted({d["code"] for d in a["ok"]} - set(request) - {"ban-unused-ignore"})
+        if extra or keys(a) != keys(b):
+            n_sel_bad += 1
+            if n_sel_bad <= 3:
+                ctx.violation("C04.foreign-code-through-selection:%s" % (extra[0] if extra else c), "include=%s gives codes %s; the same rules handed over directly give %s"
+                              % (request, sorted({d["code"] for d in a["ok"]}), sorted({d["code"] for d in b["ok"]})), {"case": sel_cases[2 * i], "direct": sel_cases[2 * i + 1]})
+    ctx.correspondence("selection path: filtered_rules(include = codes that are substrings of other codes) vs the same rules handed over directly", len(sel_cases), len(sel_cases), [],
+                       "%d related codes, test programs of the whole family; the output's codes must be within the request" % len(related))
     snippets = sample_corpus(rng, 1200 if ctx.tier == "quick" else 10 ** 6)
     cases, meta = [], []
     for sn in snippets:
